@@ -105,6 +105,15 @@ def judge(name, sc, run, m):
             if d["kind"] == "load" and r[1] == "DDSException" and not sc["setup"]:
                 continue
             probs.append((f"C07|{name}|{d['kind']}|raises={r[1]}", f"{role} raised {r[1]}: {r[3]}"))
+    # a file of a published blob (data or metadata, i.e. not a temporary name) is never taken away: between its removal and
+    # its return another process would find a blob that was there a moment ago missing or half there
+    for pid, op, args, res in run.trace:
+        if op in ("unlink", "remove", "rmdir") and res and res[0] == "ok":
+            pth = str(args[0])
+            if "/blobs/" in pth and ".tmp-" not in pth:
+                probs.append((f"C07|{name}|published_blob_file_removed|{'meta' if pth.endswith('.meta') else 'data'}",
+                              f"p{pid} removed {pth.rsplit('/', 1)[-1][:20]}... of a published blob ({op})"))
+                break
     if "second_load_after" in sc:
         li, ki, want = sc["second_load_after"]
         tr = run.trace
